@@ -43,6 +43,8 @@ class Server:
                         return
                     line = line.strip()
                     if not line:
+                        if length is None:
+                            continue   # stray output on stdout (the table generator prints resolved conflicts there)
                         break
                     if line.lower().startswith(b'content-length:'):
                         length = int(line.split(b':')[1])
